@@ -318,7 +318,8 @@ def run_one(mod, case):
     """Execute one case with watchdog; returns CaseResult. Harness exceptions are carried out as
     result['harness_error'] so that the parent can stop with a diagnosis."""
     t0 = time.time()
-    signal.alarm(getattr(mod, "CASE_TIMEOUT_S", CASE_TIMEOUT_S))
+    budget = case.get("_timeout_s") if isinstance(case, dict) and case.get("_timeout_s") else getattr(mod, "CASE_TIMEOUT_S", CASE_TIMEOUT_S)
+    signal.alarm(int(budget) * int(os.environ.get("VERIF_TIMEOUT_SCALE", "1")))
     try:
         res = _run_isolated(mod, case) if getattr(mod, "ISOLATE", False) else mod.run_case(case)
     except CaseTimeout:
@@ -426,6 +427,19 @@ def main_check(mod, tier: str, seed: int, replay: str | None = None) -> int:
     total = len(cases)
     print(f"[{pid}] tier={tier} seed={seed} cases={total} repo={REPO}", flush=True)
     results = explore(mod, cases)
+    # A watchdog expiry depends on machine load, not only on the subject: every case that hit it is run once more, alone (the pool is
+    # idle now), with four times the budget. Only a case that still does not terminate is reported; otherwise its completed result counts.
+    slow = [i for i, r in enumerate(results) if r is not None and r.get("outcome") == "timeout"]
+    if slow:
+        os.environ["VERIF_TIMEOUT_SCALE"] = "4"
+        try:
+            for i in slow:
+                _worker_init(mod.__name__)
+                results[i] = run_one(mod, cases[i])
+        finally:
+            os.environ.pop("VERIF_TIMEOUT_SCALE", None)
+        print(f"[{pid}] {len(slow)} case(s) hit the watchdog and were re-run alone with 4x the budget; "
+              f"{sum(1 for i in slow if results[i].get('outcome') == 'timeout')} still did not terminate", flush=True)
     missing = [i for i, r in enumerate(results) if r is None]
     if missing:
         print(f"HARNESS-ERROR property={pid} {len(missing)} cases did not return", flush=True)
